@@ -180,20 +180,20 @@ Proof. intros A B Cc D. split; [intro u; now rewrite A|repeat split; assumption]
 Lemma process_event_vsame s e : vsame s (process_event K s e).
 Proof. destruct (process_event_core K s e) as (A & _ & _ & D & _ & G & _ & H & _). now apply core_vsame. Qed.
 
-Lemma read_loop_valid fuel tn : forall x total notes,
-  tvalid (fst (fst (fst (read_loop K fuel tn x total notes)))) = tvalid x.
+Lemma read_loop_valid fuel lim tn : forall x total notes,
+  tvalid (fst (fst (fst (read_loop K fuel lim tn x total notes)))) = tvalid x.
 Proof.
   induction fuel as [|f IH]; intros x total notes; cbn [read_loop]; [reflexivity|].
   destruct (prepare_read ideal (c_cap K) (q x)) as [q1 [off|]]; [|reflexivity].
   destruct (qev x) as [|e rest]; [reflexivity|].
   destruct (negb (c_grace K =? 0) && (tn <? ets e)); [reflexivity|].
-  assert (Hgo : forall c,
-    let x1 := set_thr_tbuf (set_thr_q x (finish_read ideal q1 (esz e)) rest) (tbuf x ++ [e]) c in
-    let r := if (total + esz e <? c_cap K) && (N.of_nat (length (tbuf x1)) <? c_hard K)
-             then read_loop K f tn x1 (total + esz e) (notes ++ fmt_notes e)
+  assert (Hgo : forall c g,
+    let x1 := sh g (set_thr_tbuf (set_thr_q x (finish_read ideal q1 (esz e)) rest) (tbuf x ++ [e]) c) in
+    let r := if (total + esz e <? lim) && (N.of_nat (length (tbuf x1)) <? c_hard K)
+             then read_loop K f lim tn x1 (total + esz e) (notes ++ fmt_notes e)
              else (x1, total + esz e, notes ++ fmt_notes e, false) in
     tvalid (fst (fst (fst r))) = tvalid x).
-  { intros c x1 r. unfold r. destruct ((total + esz e <? c_cap K) && (N.of_nat (length (tbuf x1)) <? c_hard K)).
+  { intros c g x1 r. unfold r. destruct ((total + esz e <? lim) && (N.of_nat (length (tbuf x1)) <? c_hard K)).
     - rewrite IH. reflexivity.
     - reflexivity. }
   destruct (efmt e); destruct (ekind e); destruct (c_catch_all K); try reflexivity; apply Hgo.
@@ -201,8 +201,8 @@ Qed.
 
 Lemma read_queue_valid tn x : tvalid (fst (fst (read_queue K tn x))) = tvalid x.
 Proof.
-  unfold read_queue. pose proof (read_loop_valid (S (length (qev x))) tn x 0 []) as H.
-  destruct (read_loop K (S (length (qev x))) tn x 0 []) as [[[x1 total] notes] esc]. cbn [fst] in *.
+  unfold read_queue. pose proof (read_loop_valid (S (length (qev x))) (read_limit K x) tn x 0 []) as H.
+  destruct (read_loop K (S (length (qev x))) (read_limit K x) tn x 0 []) as [[[x1 total] notes] esc]. cbn [fst] in *.
   destruct (total =? 0); cbn [fst]; exact H.
 Qed.
 
